@@ -363,6 +363,97 @@ pub fn check_automaton_view(ivs: &[(u32, u32)], queries: &[(u32, u32)], o: &mut 
     }
 }
 
+/// "However it was built": the partition under construction is a partition after every push, and a
+/// copy (clone, clone_from over a different partition, Default + pushes) is the same partition.
+/// Queries are interleaved with the pushes, the same character asked again right after the push that
+/// covers it (answers remembered across a mutation), and every prefix is judged by the oracle.
+pub fn check_incremental(ivs: &[(u32, u32)], chars: &[u32], o: &mut Outcome) {
+    let mut p = CharPartition::default();
+    let full_checks = ivs.len() <= 8;
+    for k in 0..ivs.len() {
+        let (lo, hi) = ivs[k];
+        let prefix = &ivs[..k];
+        // characters of the interval about to be pushed, asked before and after
+        let probes = [lo, hi, lo + (hi - lo) / 2, if hi < MAX { hi + 1 } else { hi }];
+        for &x in &probes {
+            o.evals += 1;
+            let got = p.class_of_char(x);
+            let exp = class_of(prefix, x);
+            if got != exp {
+                o.fail("C11/incremental/class_of_char", format!("after pushing {}: class_of_char({}) = {}, expected {}", show_part(prefix), show_char(x), got, exp));
+                return;
+            }
+        }
+        let set = CharSet::range(lo, hi);
+        let _ = p.class_of_set(&set);
+        let _ = p.pick_complement();
+        p.push(lo, hi);
+        let prefix = &ivs[..=k];
+        for &x in &probes {
+            o.evals += 1;
+            let got = p.class_of_char(x);
+            let exp = class_of(prefix, x);
+            if got != exp {
+                o.fail("C11/incremental/class_of_char", format!("after pushing {} (the same character was asked just before the last push): class_of_char({}) = {}, expected {}", show_part(prefix), show_char(x), got, exp));
+                return;
+            }
+        }
+        o.evals += 1;
+        match p.class_of_set(&set) {
+            Ok(ClassId::Interval(i)) if i == k => {}
+            other => {
+                o.fail("C11/incremental/class_of_set", format!("after pushing {}: class_of_set({}) = {:?}", show_part(prefix), show_iv((lo, hi)), other));
+                return;
+            }
+        }
+        if !witness_ok(prefix, &p) {
+            o.fail("C11/incremental/pick_complement", format!("after pushing {}: pick_complement() = {:#x}, empty_complement() = {}", show_part(prefix), p.pick_complement(), p.empty_complement()));
+            return;
+        }
+        if full_checks {
+            let before = o.fails.len();
+            check_partition(prefix, &p, chars, o);
+            if o.fails.len() > before {
+                return;
+            }
+        }
+    }
+    // copies
+    let q = p.clone();
+    let before = o.fails.len();
+    check_partition(ivs, &q, chars, o);
+    if o.fails.len() > before {
+        let f = o.fails.last_mut().unwrap();
+        f.class = "C11/copy".to_string();
+        f.msg = format!("clone(): {}", f.msg);
+        return;
+    }
+    // clone_from over partitions with a different complement witness
+    for other in [vec![], vec![(0u32, 10u32)], vec![(0, MAX)], vec![(5, 9), (MAX - 1, MAX)]] {
+        let mut r = build_push(&other);
+        r.clone_from(&p);
+        check_partition(ivs, &r, chars, o);
+        if o.fails.len() > before {
+            let f = o.fails.last_mut().unwrap();
+            f.class = "C11/copy".to_string();
+            f.msg = format!("clone_from() over {}: {}", show_part(&other), f.msg);
+            return;
+        }
+        // and it keeps behaving like the original under further pushes
+        if let Some(&(_, last_hi)) = ivs.last() {
+            if last_hi + 2 <= MAX {
+                r.push(last_hi + 2, MAX);
+                let mut ext = ivs.to_vec();
+                ext.push((last_hi + 2, MAX));
+                if !witness_ok(&ext, &r) || r.class_of_char(MAX) != ClassId::Interval(ivs.len()) {
+                    o.fail("C11/copy", format!("clone_from() over {} then push: witness {:#x} / class_of_char(MAX) = {}", show_part(&other), r.pick_complement(), r.class_of_char(MAX)));
+                    return;
+                }
+            }
+        }
+    }
+}
+
 pub fn run(tape: &[u8], cx: &Cx) -> Outcome {
     let mut t = Tape::new(tape);
     // mostly 0-8 intervals; a sixth of the cases up to 70 (search strategies change with the size)
@@ -426,6 +517,9 @@ pub fn run(tape: &[u8], cx: &Cx) -> Outcome {
     if ivs.len() <= 24 {
         check_automaton_view(&ivs, &queries, &mut o);
     }
+    if o.fails.is_empty() {
+        check_incremental(&ivs, &chars, &mut o);
+    }
     if pairwise_disjoint(&list) {
         o.tag("from_iter-disjoint");
     } else {
@@ -470,6 +564,9 @@ pub fn enumerate(n: u32, part: usize, parts: usize, sink: &mut EnumSink) {
             if !same(&q, &p) || !witness_ok(ivs, &q) {
                 o.fail("C11/from_set", format!("from_set({}) differs from push", show_iv(ivs[0])));
             }
+        }
+        if o.fails.is_empty() {
+            check_incremental(ivs, &chars, &mut o);
         }
         sink.case(&o, false, || format!("partition {}", show_part(ivs)));
         for &q in &queries {
